@@ -108,7 +108,7 @@ func c12(c *Ctx) {
 	c.checkNoMemoAfterFailure(L)
 	c.checkReadCountOnFailure()
 	c.checkNoEarlyOpen()
-	c.checkNoInvertedErrorTest()
+	c.checkNoInvertedErrorTest("R12.7")
 	var nodeIface *types.Interface
 	if pk := c.P.All["github.com/ipld/go-ipld-prime/datamodel"]; pk != nil {
 		if o := pk.Types.Scope().Lookup("Node"); o != nil {
@@ -619,9 +619,9 @@ func helperAdvancesParam(h *ssa.Function, i int) bool {
 // nil, while every other result is a zero constant (the function answers "nothing, and no error"); or a store of such a
 // known-nil error into a captured error variable (`retErr = err` inside `if err == nil`). Both are what an inverted
 // `err != nil` test leaves behind; the non-nil error then falls through and the call's other results are used.
-func (c *Ctx) checkNoInvertedErrorTest() {
+func (c *Ctx) checkNoInvertedErrorTest(rule string) {
 	r := c.R
-	r.Rule("R12.7", "no inverted error test: no return forwards an error on the edge where a dominating test found it nil while all its other results are zero values, and no known-nil error is stored into a captured error variable; instances counted are the returns and stores that forward a tested error at all")
+	r.Rule(rule, "no inverted error test: no return forwards an error on the edge where a dominating test found it nil while all its other results are zero values, and no known-nil error is stored into a captured error variable; instances counted are the returns and stores that forward a tested error at all")
 	n, nbad := 0, 0
 	knownNil := func(b *ssa.BasicBlock, e ssa.Value) bool {
 		return core.GuardedBy(b, func(cond ssa.Value) (bool, bool) {
@@ -676,17 +676,57 @@ func (c *Ctx) checkNoInvertedErrorTest() {
 				switch x := ins.(type) {
 				case *ssa.Return:
 					if errIdx < 0 {
-						continue
-					}
-					e := x.Results[errIdx]
-					if core.IsNilConst(e) && len(x.Results) > 1 {
-						// (nothing, nil) on the edge where an error was found non-nil: the failure is reported as success
+						// a function without error result (native accessors): all-zero results on the edge where the error of a
+						// repository call was found NIL, while that call's value result is what the other edge returns
+						if len(x.Results) == 0 {
+							continue
+						}
 						allZero := true
-						for i, rv := range x.Results {
-							if i != errIdx && !isZero(rv) {
+						for _, rv := range x.Results {
+							if !isZero(rv) {
 								allZero = false
 							}
 						}
+						if !allZero {
+							continue
+						}
+						var tuple ssa.Value
+						if !core.GuardedBy(b, func(cond ssa.Value) (bool, bool) {
+							y, trueMeansNil, ok := core.NilCmp(cond)
+							if !ok || !core.IsErrorType(y.Type()) {
+								return false, false
+							}
+							if ex, isEx := y.(*ssa.Extract); isEx {
+								tuple = ex.Tuple
+							}
+							return trueMeansNil, true
+						}) || tuple == nil {
+							continue
+						}
+						inverted := false
+						for _, other := range core.Returns(fn) {
+							if other == x {
+								continue
+							}
+							for _, rv := range other.Results {
+								if ex, ok := core.Unconv(rv).(*ssa.Extract); ok && ex.Tuple == tuple {
+									inverted = true
+								}
+							}
+						}
+						if inverted {
+							n++
+							ord++
+							nbad++
+							r.Violate(rule, fmt.Sprintf("%s/success-returned-as-nothing#%d", core.FuncName(fn), ord), c.P.Pos(x.Pos()), "on the edge where the call succeeded the function returns nothing, and the call's value is returned on the edge where it failed: the test on the error is inverted")
+						}
+						continue
+					}
+					e := x.Results[errIdx]
+					if core.IsNilConst(e) {
+						// a nil error on the edge where an error was found non-nil: the failure is reported as success (the other
+						// results, if any, are zero values or whatever the failed call left behind)
+						allZero := true
 						// an error compared with a sentinel (err == io.EOF, errors.Is) on that path is an outcome the function handles
 						handled := core.GuardedBy(b, func(cond ssa.Value) (bool, bool) {
 							if bo, ok := cond.(*ssa.BinOp); ok && (bo.Op == token.EQL || bo.Op == token.NEQ) && core.IsErrorType(bo.X.Type()) && !core.IsNilConst(bo.X) && !core.IsNilConst(bo.Y) {
@@ -707,7 +747,7 @@ func (c *Ctx) checkNoInvertedErrorTest() {
 							n++
 							ord++
 							nbad++
-							r.Violate("R12.7", fmt.Sprintf("%s/failure-returned-as-nothing#%d", core.FuncName(fn), ord), c.P.Pos(x.Pos()), "on the edge where an error was found non-nil the function returns zero results and a nil error: the failure is swallowed and the caller receives (nothing, nil)")
+							r.Violate(rule, fmt.Sprintf("%s/failure-returned-as-nothing#%d", core.FuncName(fn), ord), c.P.Pos(x.Pos()), "on the edge where an error was found non-nil the function returns a nil error: the failure is swallowed and the caller is told all went well")
 						}
 						continue
 					}
@@ -718,7 +758,7 @@ func (c *Ctx) checkNoInvertedErrorTest() {
 					if !knownNil(b, e) {
 						continue
 					}
-					allZero := len(x.Results) > 1
+					allZero := true
 					for i, rv := range x.Results {
 						if i != errIdx && !isZero(rv) {
 							allZero = false
@@ -727,7 +767,7 @@ func (c *Ctx) checkNoInvertedErrorTest() {
 					if allZero {
 						ord++
 						nbad++
-						r.Violate("R12.7", fmt.Sprintf("%s/known-nil-error-returned#%d", core.FuncName(fn), ord), c.P.Pos(x.Pos()), "the return forwards an error on the edge where it was found nil, with no result: the test on the error is inverted — a failure falls through and the call's other results are used, a success ends with (nothing, nil)")
+						r.Violate(rule, fmt.Sprintf("%s/known-nil-error-returned#%d", core.FuncName(fn), ord), c.P.Pos(x.Pos()), "the return forwards an error on the edge where it was found nil, with no result: the test on the error is inverted — a failure falls through and the call's other results are used, a success ends with (nothing, nil)")
 					}
 				case *ssa.Store:
 					if !core.IsErrorType(x.Val.Type()) {
@@ -747,14 +787,14 @@ func (c *Ctx) checkNoInvertedErrorTest() {
 					if knownNil(b, x.Val) {
 						ord++
 						nbad++
-						r.Violate("R12.7", fmt.Sprintf("%s/known-nil-error-recorded#%d", core.FuncName(fn), ord), c.P.Pos(x.Pos()), "an error that the dominating test found nil is recorded as the outcome: the test on the error is inverted")
+						r.Violate(rule, fmt.Sprintf("%s/known-nil-error-recorded#%d", core.FuncName(fn), ord), c.P.Pos(x.Pos()), "an error that the dominating test found nil is recorded as the outcome: the test on the error is inverted")
 					}
 				}
 			}
 		}
 	}
 	if nbad == 0 {
-		r.OK("R12.7", "repository/*/no-inverted-error-test", "-", fmt.Sprintf("%d returns/stores forward a tested error; none on the edge where it was found nil", n))
+		r.OK(rule, "repository/*/no-inverted-error-test", "-", fmt.Sprintf("%d returns/stores forward a tested error; none on the edge where it was found nil", n))
 	}
-	r.Floor("R12.7", n, 20)
+	r.Floor(rule, n, 20)
 }
